@@ -5,7 +5,7 @@ conf = {}
 for f in ['/dev/shm/seedverify.log', '/dev/shm/seedverify2.log', '/dev/shm/seedverify3.log']:
     if not os.path.exists(f): continue
     for line in open(f):
-        m = re.match(r'(C\d+) demo_unchanged_exit=(\d) demo_changed_exit=(\d) suite=\[(.*)\]', line.strip())
+        m = re.match(r'(C\d+(?:-\d+)?) demo_unchanged_exit=(\d) demo_changed_exit=(\d) suite=\[(.*)\]', line.strip())
         if m: conf[m.group(1)] = m.groups()[1:]
 res = {}
 if os.path.exists('/verif/seeded/results.tsv'):
@@ -17,7 +17,7 @@ for d in sorted(glob.glob('/verif/seeded/C*')):
     i = os.path.basename(d)
     mp = os.path.join(d, 'meta.json')
     m = json.load(open(mp))
-    m['breaks_property'] = i
+    m['breaks_property'] = i.split('-')[0]
     if i in conf:
         u, c, s = conf[i]
         m['confirmed_in_main_session'] = {"how": "tools/verify_seed.sh <ID> suite: scratch git worktree of /repo HEAD under /tmp; demo.py on the unchanged sources; git apply patch.diff; demo.py again; repository test suite (pytest -n 4, TestSubmap deselected as known-flaky) with the patch applied; worktree removed afterwards",
